@@ -73,9 +73,9 @@ def _case(draw, gs):
 def strategy(tier):
     mx = 5 if tier == "quick" else 6
     return st.one_of(
-        _case(gen.admgs(2, mx)),
-        _case(gen.admgs(3, mx, bi_densities=(2, 3, 5), di_densities=(3, 5, 7))),
-        _case(gen.embedded_admgs(2)),
+        _case(gen.with_odd_names(gen.admgs(2, mx))),
+        _case(gen.with_odd_names(gen.admgs(3, mx, bi_densities=(2, 3, 5), di_densities=(3, 5, 7)))),
+        _case(gen.with_odd_names(gen.embedded_admgs(2))),
     )
 
 
